@@ -18,7 +18,9 @@ Struct -> Attrs struct ident Fieldset ;
 Enum -> Attrs enum ident { Variants } ;
 Term -> Attrs terminal ident { TVariants } ;
 Attrs -> | Attrs attr ;
-Fieldset -> | { NFields } | ( TFields ) ;
+Fieldset -> | NamedFieldset | TupleFieldset ;
+NamedFieldset -> { NFields } ;
+TupleFieldset -> ( TFields ) ;
 NFields -> NField | NFields NField ;
 NField -> IdOrUs : Sym ;
 TFields -> TField | TFields TField ;
@@ -27,7 +29,8 @@ Variants -> | Variants Variant ;
 Variant -> ident Fieldset ;
 TVariants -> | TVariants TVariant ;
 TVariant -> tident : Type ;
-Type -> ( ) | Path | Path < Types > ;
+Type -> ( ) | Path | ComplexType ;
+ComplexType -> Path < Types > ;
 Path -> ident | Path :: ident ;
 Types -> Type | Types , Type ;
 IdOrUs -> ident | _ ;
